@@ -222,6 +222,8 @@ structure GState where
   nomsg : List Suppr
   nofail : List Suppr
   errorList : List Str := []
+  /-- `mSuppressedErrorList` (since /repo 9e24c55) -/
+  supErrorList : List Str := []
   exitCode : Nat := 0
   out : List Out := []
 
@@ -276,9 +278,9 @@ def exitStep (env : Env) (st : GState) (m : Msg) : GState :=
 def dupFixApplied : Bool := true
 
 /-- one call of `CppCheckLogger::reportErr` (plist output is outside the model).
-    `dfix = true` is the code after proposed/C23-duptext.diff: suppressed findings use a duplicate filter of their own,
-    which only decides what is written to the analyzer information (outside the model), so they neither read nor
-    write `errorList`. -/
+    `dfix = true` is the current code (since /repo 9e24c55 + 9907ad7): findings that are suppressed — here, or later by the
+    executor because this logger runs without the global suppressions (`suppressedLater`) — use the duplicate filter
+    `mSuppressedErrorList`, all others `mErrorList`.  `dfix = false` is the code before 9e24c55: one filter for all. -/
 def reportErrG (dfix : Bool) (env : Env) (cfg : GCfg) (st : GState) (f : Finding) : GState :=
   if f.internal then { st with out := st.out ++ [{ f := f }] }
   else if !f.libReports then st
@@ -288,14 +290,21 @@ def reportErrG (dfix : Bool) (env : Env) (cfg : GCfg) (st : GState) (f : Finding
     let sup := r.1
     let st2 := safetyStep env cfg { st with nomsg := r.2 } f m sup
     if f.text.isEmpty then st2
-    else if dfix && sup then st2
-    else if !cfg.emitDuplicates && st2.errorList.contains f.text then st2
     else
-      let st3 : GState := if cfg.emitDuplicates then st2 else { st2 with errorList := f.text :: st2.errorList }
-      if sup then st3
+      -- `suppressedLater = !suppressed && !mUseGlobalSuppressions && nomsg.isSuppressed(errorMessage)` (updates flags)
+      let rl := if dfix && !sup && !cfg.useGlobal then listIsSuppressed env true m st2.nomsg else (false, st2.nomsg)
+      let st2b : GState := { st2 with nomsg := rl.2 }
+      let useSup := dfix && (sup || rl.1)
+      if !cfg.emitDuplicates && (if useSup then st2b.supErrorList else st2b.errorList).contains f.text then st2b
       else
-        let st5 := exitStep env st3 m
-        { st5 with out := st5.out ++ [{ f := f, remark := remarkFor cfg f }] }
+        let st3 : GState :=
+          if cfg.emitDuplicates then st2b
+          else if useSup then { st2b with supErrorList := f.text :: st2b.supErrorList }
+          else { st2b with errorList := f.text :: st2b.errorList }
+        if sup then st3
+        else
+          let st5 := exitStep env st3 m
+          { st5 with out := st5.out ++ [{ f := f, remark := remarkFor cfg f }] }
 
 /-- the gate over a whole run -/
 def gateG (dfix : Bool) (env : Env) (cfg : GCfg) (nomsg nofail : List Suppr) (fs : List Finding) : GState :=
